@@ -135,3 +135,80 @@ contract(
         "note-selects-untouched": "implies(old(kwargs['query']).startswith('S note'), kwargs['query'] == old(kwargs['query']))",
     },
 )
+
+
+# ---------------------------------------------------------------------------------------------------------------
+# ORDER BY / GROUP BY lists: the compiled tuple spells the atoms of the clause, in order (C04: 'every ordering / grouping
+# list'; `none` in a GROUP BY list contributes no dimension).  Parse-tree contexts are stubs (A-ANTLR-TREE): an atom context
+# answers each alternative's accessor with a sub-context or None; by the grammar exactly one alternative is present.
+# ---------------------------------------------------------------------------------------------------------------
+from zorg.domain.models import Query as _Query  # noqa: E402
+from zorg.domain.types import GroupByType, OrderByType  # noqa: E402
+from zorg.service.compiler._query_compiler import ZorgQueryCompiler as _ZQC  # noqa: E402
+
+QC = "zorg.service.compiler._query_compiler:ZorgQueryCompiler."
+_LEAF = T.rec("ParserCtx", {"text": T.str()})
+G_ALTS = ("AT_SIGN", "HASH", "PERCENT", "PLUS", "file_", "type_", "priority", "section", "none")
+O_ALTS = ("alpha", "create", "modify", "priority", "type_", "none")
+GATOM = T.rec("ParserCtx", {"text": T.str(), **{"sub:" + k: T.opt(_LEAF) for k in G_ALTS}})
+OATOM = T.rec("ParserCtx", {"text": T.str(), **{"sub:" + k: T.opt(_LEAF) for k in O_ALTS}})
+QSELF = T.rec("ZorgQueryCompiler", {"zorg_query": T.rec("Query", {"group_by": T.opaque("GroupByTuple"), "order_by": T.opaque("OrderByTuple")}, cls=_Query)}, cls=_ZQC)
+G_TABLE = {"AT_SIGN": GroupByType.CONTEXT, "HASH": GroupByType.AREA, "PERCENT": GroupByType.PERSON, "PLUS": GroupByType.PROJECT, "file_": GroupByType.FILE,
+           "type_": GroupByType.NOTE_TYPE, "priority": GroupByType.PRIORITY, "section": GroupByType.SECTION}
+O_TABLE = {"alpha": OrderByType.ALPHA, "create": OrderByType.CREATE_DATE, "modify": OrderByType.MODIFY_DATE, "priority": OrderByType.PRIORITY,
+           "type_": OrderByType.NOTE_TYPE, "none": OrderByType.NONE}
+
+
+import os  # noqa: E402
+
+NATOMS = 2 if os.environ.get("VERIF_TIER") != "thorough" else 3
+LIST_BOUNDED = f"bounded-symbolic: clause lists of 1..{NATOMS} atoms, every atom any alternative of its rule (the loop treats atoms independently)"
+
+
+def _atoms_prelude(alts, accessor):
+    def prelude(interp, loc):
+        """ctx.<accessor>() is a list of 1..NATOMS atom contexts; each atom is exactly one alternative of its rule (the token
+        `none` spells 'none')"""
+        import z3
+        from engine import sym
+
+        ctx = interp.ctx
+        n = 1
+        while n < NATOMS and ctx.branch(ctx.fresh(f"atoms.more{n}", z3.BoolSort()), f"more than {n} atoms"):
+            n += 1
+        atoms = []
+        for i in range(n):
+            k = 0
+            while k < len(alts) - 1 and not ctx.branch(ctx.fresh(f"atom{i}.is_{alts[k]}", z3.BoolSort()), f"atom {i} is {alts[k]}"):
+                k += 1
+            f = {"text": "none" if alts[k] == "none" else sym.TStr().fresh(ctx, f"atom{i}.text")}
+            for j, a in enumerate(alts):
+                f["sub:" + a] = sym.Rec("ParserCtx", {"text": f["text"]}) if j == k else None
+            atoms.append(sym.Rec("ParserCtx", f))
+        loc["ctx"] = sym.Rec("ParserCtx", {"text": sym.TStr().fresh(ctx, "clause.text"), "sub:" + accessor: atoms})
+        loc["self"] = QSELF.fresh(ctx, "self")
+        loc["_ghost_atoms"] = atoms
+
+    return prelude
+
+
+def alt_of(atom, alts):
+    """the one alternative of the rule that is present in the atom's context"""
+    r = None
+    for k in alts:
+        if getattr(atom, k)() is not None:
+            r = k
+    return r
+
+
+contract(
+    QC + "enterGroup_by_body", props=["C04"], args={}, prelude=_atoms_prelude(G_ALTS, "group_by_atom"), list_bound=NATOMS, bounded_note=LIST_BOUNDED,
+    modifies={"self.zorg_query.group_by": T.opaque("GroupByTuple")},
+    ensures={"the-dimensions-spelled-in-order-none-contributing-nothing":
+             "self.zorg_query.group_by == tuple(G_TABLE[alt_of(a, G_ALTS)] for a in _ghost_atoms if alt_of(a, G_ALTS) != 'none')"},
+)
+contract(
+    QC + "enterOrder_by_body", props=["C04"], args={}, prelude=_atoms_prelude(O_ALTS, "order_by_atom"), list_bound=NATOMS, bounded_note=LIST_BOUNDED,
+    modifies={"self.zorg_query.order_by": T.opaque("OrderByTuple")},
+    ensures={"the-keys-spelled-in-order": "self.zorg_query.order_by == tuple(O_TABLE[alt_of(a, O_ALTS)] for a in _ghost_atoms)"},
+)
